@@ -22,6 +22,10 @@ Monitors on a pair (oracle = identity of the ASTs' canonical signatures, ``dslge
   parser   : one ``alchemy.Parser`` (its ``generate_feature`` lru cache) parses x then y: each SQL text must be the
              text a fresh parser produces for that statement alone
   reader   : ``alchemy.Reader._parse_statement`` (lru cache keyed by the statement) likewise
+  cross    : objects that were used in this process (hashed, keyed a dict, schema read, parsed) are pickled and shipped to
+             a child interpreter with another PYTHONHASHSEED (vlib/c08_child.py), which builds the identical object
+             natively from the AST: loaded vs native must be ==, hash equal, interchangeable in set / dict, also after a
+             second round trip, and must stay unequal to a natively built single-leaf variant (kinds: all pairs)
   stable   : the verdict vector of sampled pairs is re-evaluated at the end of the shard - after thousands of other
              DSL objects were created - on the same objects and on rebuilt ones
 
@@ -82,7 +86,7 @@ def floors(tier):
         'pairs_source': 2000 * scale, 'pairs_feature': 2000 * scale, 'pairs_schema': 1300 * scale, 'pairs_kind': 256,
         'collision_pairs': 100 * scale, 'getitem_checked': 350 * scale, 'pickle_checked': 350 * scale,
         'pickle_used_checked': 100 * scale, 'parser_checked': 200 * scale, 'reader_checked': 300 * scale,
-        'fidelity_checked': 800 * scale, 'stable_checked': 150, 'objects_built': 6000 * scale, 'directed_checked': 28,
+        'fidelity_checked': 800 * scale, 'stable_checked': 150, 'cross_process_pairs_checked': 1500 if tier == 'quick' else 6000, 'objects_built': 6000 * scale, 'directed_checked': 28,
     }
 
 
@@ -680,6 +684,226 @@ def run_directed(ctx, g, sql, keep):
             check_pickle(ctx, g, 'source', x, y, same, ax, ay, what, {**info, 'used': True}, used=True)
 
 
+# ---------------------------------------------------------------------------------------------- cross-process pickle
+class Cross:
+    """Batch of used objects for the cross-process pickle monitor (see vlib/c08_child.py)."""
+
+    def __init__(self, limit):
+        self.limit = limit
+        self.items = []
+
+    def full(self):
+        return len(self.items) >= self.limit
+
+    def add(self, ctx, what, obj, **spec):
+        """Use the object the way a process does before shipping it (hash it, key a dict with it) and pickle it."""
+        import base64
+        import pickle
+
+        try:
+            hash(obj)
+            assert {obj: 1}[obj] == 1 and obj in {obj}
+            blob = pickle.dumps(obj)
+        except RecursionError:
+            ctx.count('cross_unpicklable')  # in-process matters: reported by the pickle / pair monitors
+            return
+        except Exception:  # pylint: disable=broad-except
+            ctx.count('cross_unpicklable')
+            return
+        self.items.append({'id': len(self.items), 'what': what, 'blob': base64.b64encode(blob).decode(), **spec})
+
+
+CROSS_DIRECTED = None
+
+
+def cross_directed(g):
+    """Statements that together contain every class of DSL object (features of all kinds, windows, all source types)."""
+    A, B, C = g.table('A'), g.table('B'), g.table('C')
+    ax, ay, az, as_ = (g.column('A', n) for n in 'xyzs')
+    ck, cd, cb = g.column('C', 'k'), g.column('C', 'd'), g.column('C', 'b')
+    r = g.reference(A, 'r')
+    rx = g.column('r', 'x')
+    sub = g.reference(g.query(B, [g.column('B', 'x'), g.alias(g.agg('count', g.column('B', 't')), 'n')], groupby=[g.column('B', 'x')]), 'q')
+    return [
+        g.query(A, [ax, g.alias(g.arith('+', ay, g.lit(1)), 'e'), g.alias(g.lit('a'), 'c'), g.alias(g.lit(0.5), 'f'), g.alias(g.lit(True), 't'),
+                    g.alias(g.lit('2020-01-01', 'date'), 'd'), g.alias(g.cast(as_, 'Integer'), 'k'), g.alias(g.func('abs', az), 'm'),
+                    g.alias(g.func('ceil', az), 'u')],
+                where=g.and_(g.cmp('>', ay, g.lit(-1)), g.or_(g.isnull(as_), g.not_(g.cmp('==', ax, g.lit(2**61 - 1))))),
+                orderby=[(ax, 'desc'), (g.arith('*', ay, g.lit(2)), 'asc')], rows=(3, 1)),
+        g.query(A, [ax, g.alias(g.agg('sum', ay), 's'), g.alias(g.arith('-', g.agg('max', az), g.agg('min', az)), 'w'),
+                    g.alias(g.agg('avg', az), 'v'), g.alias(g.agg('count', as_), 'n')],
+                groupby=[ax], having=g.cmp('>=', g.agg('count', ay), g.lit(2))),
+        g.query(C, [ck, g.alias(g.func('year', cd), 'y'), g.alias(g.notnull(cb), 'p')], where=cb),
+        g.query(A, [ax, g.alias(g.window('sum', ay, [ax], [(ay, 'asc')]), 'w'), g.alias(g.window('rownumber', None, [as_]), 'i')]),
+        g.query(g.join(g.join(A, r, 'left', g.cmp('==', ax, g.column('r', 'y'))), C, 'cross', None), [ax, g.alias(rx, 'rx'), ck]),
+        g.query(g.join(A, sub, 'full', g.cmp('<', ax, g.column('q', 'n'))), [g.alias(g.column('q', 'n'), 'n'), as_], where=g.cmp('!=', as_, g.lit('b'))),
+        g.setop(g.setop(g.query(A, [ax, as_]), g.query(B, [g.column('B', 'x'), g.alias(g.column('B', 't'), 's')]), 'union'),
+                g.query(A, [g.alias(ay, 'x'), as_]), 'difference'),
+        g.query(g.reference(g.setop(g.query(A, [ax]), g.query(B, [g.column('B', 'x')]), 'intersection'), 'u'), [g.column('u', 'x')],
+                where=g.cmp('<=', g.column('u', 'x'), g.lit(3))),
+    ]
+
+
+def cross_variants(g, ast, rng, cap=16):
+    """Conforming single-leaf variants of the statement (a seeded sample): [(variant, what, path)]."""
+    found = [v for v in g.leaf_variants(ast, rng) if g.signature(v[0]) != g.signature(ast)]
+    rng.shuffle(found)
+    out = []
+    for variant, what, path in found:
+        if len(out) >= cap:
+            break
+        try:
+            if not g.violations(variant) and not g.unspecified(variant):
+                out.append((variant, what, tuple(path)))
+        except g.DslgenError:
+            continue
+    return out
+
+
+def cross_collect(ctx, g, sql, cross, ast, rng, per_statement=8, everything=False):
+    """Build the statement, use it (schema, item access, parse), and add it, its schema, sub-sources and clause (sub)
+    features - each with a single-leaf variant where one exists - to the batch."""
+    try:
+        x = g.build(ast)
+    except Exception:  # pylint: disable=broad-except
+        return
+    named = True
+    try:
+        schema = x.schema
+        hash(schema)
+    except RecursionError:
+        named = False
+    if ast[0] in ('query', 'set'):
+        sql.fresh(x)  # a parse reads .factors of every predicate (cached on the features)
+    variants = cross_variants(g, ast, rng)
+
+    def variant_for(path):
+        for variant, what, vpath in variants:
+            if vpath[:len(path)] == tuple(path) or (not path):
+                try:
+                    node = g.get(variant, path)
+                except (IndexError, TypeError):
+                    continue
+                if isinstance(node, tuple) and node and (g.is_source(node) or g.is_feature(node)) \
+                        and g.signature(node) != g.signature(g.get(ast, path)):
+                    return variant, node, what
+        return None, None, None
+
+    nodes = []
+    for path, node in g.walk(ast):
+        if path and (g.is_source(node) or g.is_feature(node)):
+            nodes.append((tuple(path), node))
+    if not everything and len(nodes) > per_statement:
+        rng.shuffle(nodes)
+        nodes = nodes[:per_statement]
+    variant, vnode, what = variant_for(())
+    cross.add(ctx, 'source', x, root=ast, node=ast, raw=False, variant_root=variant, variant_node=vnode, leaf=what, level='statement')
+    if named:
+        cross.add(ctx, 'schema', schema, root=ast, node=None, raw=False, variant_root=variant, variant_node=None, leaf=what, level='schema')
+    for index, (path, node) in enumerate(nodes):
+        raw = bool(index % 2)
+        try:
+            obj = build_sub(g, ast, node, raw=raw)
+        except Exception:  # pylint: disable=broad-except
+            continue
+        variant, vnode, what = variant_for(path)
+        cross.add(ctx, 'source' if g.is_source(node) else 'feature', obj, root=ast, node=node, raw=raw, variant_root=variant,
+                  variant_node=vnode, leaf=what, level=node[0])
+
+
+def run_cross(ctx, g, dsl, cross):
+    """Ship the batch to an interpreter with another PYTHONHASHSEED and judge what it reports."""
+    import json
+    import os
+    import subprocess
+    import sys
+    import tempfile
+
+    from vlib import core
+
+    if not cross.items:
+        return
+    workdir = tempfile.mkdtemp(prefix='c08-cross-')
+    job = {'items': cross.items, 'out': os.path.join(workdir, 'out.json')}
+    with open(os.path.join(workdir, 'job.json'), 'w', encoding='utf-8') as fd:
+        json.dump(core.jsonable(job), fd)
+    mine = os.environ.get('PYTHONHASHSEED', '0')
+    other = str((int(mine) + 7919) % 4294967295) if mine.isdigit() else '7919'
+    env = dict(os.environ, PYTHONHASHSEED=other, PYTHONPATH=os.pathsep.join([core.REPO, core.VERIF]), PYTHONWARNINGS='ignore',
+               PYTHONDONTWRITEBYTECODE='1')
+    try:
+        proc = subprocess.run([sys.executable, '-m', 'vlib.c08_child', os.path.join(workdir, 'job.json')], env=env, cwd=workdir,
+                              capture_output=True, text=True, timeout=900, check=False)
+    except subprocess.TimeoutExpired:
+        ctx.inconclusive('cross-process child timed out')
+        return
+    if not os.path.exists(job['out']):
+        ctx.inconclusive(f'cross-process child died rc={proc.returncode}: {proc.stderr[-600:]}')
+        return
+    with open(job['out'], encoding='utf-8') as fd:
+        results = json.load(fd)['results']
+    ctx.note_set('cross_process_hashseeds', [mine, other])
+    yes, no = [True] * 4, [False] * 4
+    for item, result in zip(cross.items, results):
+        spec = {k: v for k, v in item.items() if k != 'blob'}
+        witness = {'cross': spec, 'ast': item.get('root')}
+        label = f"{item['what']}/{item.get('level') or item.get('name')}"
+        if 'skip' in result:
+            ctx.count('cross_native_build_skipped')
+            continue
+        ctx.count('evaluations')
+        ctx.count('cross_process_pairs_checked')
+        ctx.count(f"cross_{item['what']}")
+        ctx.shape(('cross', item['what'], item.get('level') or item.get('name'), g.skeleton(g.norm(item['node'])) if item.get('node') else None))
+        if 'error' in result:
+            report(ctx, 'cross-process-unpickle-raises', lambda: f'{label}: a pickle made by another interpreter fails to load: '
+                                                                 f'{result["error"]}', witness)
+            continue
+        observed = (result['structure'], result['vector'], result['reverse'], result['repickle'])
+        if observed != (True, yes, yes, yes):
+            report(ctx, 'pickle-identity-lost-across-processes',
+                   lambda: f'{label}: object pickled under PYTHONHASHSEED={mine}, loaded under {other} vs the identical object built '
+                           f'there: same structure={observed[0]}, (==, hash, in-set, dict-get) loaded/native={observed[1]} '
+                           f'native/loaded={observed[2]} re-pickled/native={observed[3]}', witness)
+        if 'variant' in result:
+            ctx.count('evaluations')
+            ctx.count('cross_process_pairs_checked')
+            ctx.count('cross_variant_pairs')
+            seen = result['variant']
+            same = bool(result.get('variant_same')) if item['what'] == 'schema' else False
+            benign = not same and seen == [False, True, False, False]
+            if seen != ([same] * 4) and not benign:
+                if seen[0] == 'raises:ValueError:unknown-ETL-type' and not same:
+                    key = 'eq-raises-casting-non-feature'
+                else:
+                    ax = g.norm(item['node']) if item.get('node') else g.norm(item['root'])
+                    ay = g.norm(item['variant_node']) if item.get('variant_node') else g.norm(item['variant_root'])
+                    key = classify(g, 'cross-process', item['what'], same, ax, ay, item.get('leaf') or 'leaf', g.norm(item['root']))
+                report(ctx, key, lambda: f'{label}: loaded object vs natively built single-leaf variant ({item.get("leaf")}): '
+                                         f'(==, hash, in-set, dict-get) = {seen}', witness)
+        for name, seen in (result.get('others') or {}).items():
+            ctx.count('cross_process_pairs_checked')
+            want = yes if name == item['name'] else no
+            if seen != want:
+                report(ctx, 'pickle-identity-lost-across-processes' if name == item['name'] else 'cross-process-confuses-kind',
+                       lambda: f'kind {item["name"]} loaded from another interpreter vs native {name}: {seen}', witness)
+    del dsl
+
+
+def cross_fixed(ctx, g, dsl, sql, cross, rng):
+    """Every shard: kinds, tables and their schemas, and the directed statements with all their nodes."""
+    for name, make in kind_pool(dsl):
+        cross.add(ctx, 'kind', make(), name=name)
+    for name in ('A', 'B', 'C', 'A2'):
+        node = ('table', name)
+        table = g.build(node)
+        _ = table.features, table.schema
+        cross.add(ctx, 'source', table, root=node, node=node, raw=False, variant_root=('table', 'B' if name != 'B' else 'C'),
+                  variant_node=('table', 'B' if name != 'B' else 'C'), leaf='table', level='table')
+    for ast in cross_directed(g):
+        cross_collect(ctx, g, sql, cross, ast, rng, everything=True)
+
+
 def check_stability(ctx, g, keep):
     """Re-evaluate the kept pairs now that thousands of other objects exist (same objects, and rebuilt ones)."""
     for level, x, y, same, ax, ay, what, witness, before in keep:
@@ -708,6 +932,9 @@ def run(ctx):
 
     sql = Sql(g)
     keep = []
+    cross = Cross(ctx.pick(0, 0))
+    cross_fixed(ctx, g, dsl, sql, cross, ctx.rng('cross-fixed'))
+    cross.limit = len(cross.items) + ctx.pick(60, 260)
     rng = ctx.rng('gen')
     index = 0
     stride = ctx.pick(8, 2)
@@ -716,6 +943,8 @@ def run(ctx):
         if index % stride or not ctx.mine(index // stride):
             continue
         run_statement(ctx, g, dsl, sql, ast, index, ctx.rng('var', index), keep)
+        if not cross.full() and (index // stride) % 2 == 0:
+            cross_collect(ctx, g, sql, cross, ast, ctx.rng('cross', index))
         if len(ctx.samples) < 1:
             variants = [(v, w) for v, w, _ in g.leaf_variants(ast)][:2]
             ctx.sample({'statement': ast, 'some_variants': [{'what': w, 'variant': v} for v, w in variants]})
@@ -723,11 +952,15 @@ def run(ctx):
         if not ctx.mine(i):
             continue
         local = ctx.rng('random', i)
-        run_statement(ctx, g, dsl, sql, g.random_ast(local, depth=local.choice((2, 3))), i, local, keep)
+        ast = g.random_ast(local, depth=local.choice((2, 3)))
+        run_statement(ctx, g, dsl, sql, ast, i, local, keep)
+        if not cross.full():
+            cross_collect(ctx, g, sql, cross, ast, local, per_statement=5)
     if ctx.shard == 0:
         run_kinds(ctx, g, dsl)
         run_directed(ctx, g, sql, keep)
     check_stability(ctx, g, keep)
+    run_cross(ctx, g, dsl, cross)
     ctx.note_max('objects_built_before_stability', ctx.counters.get('objects_built', 0))
 
 
@@ -739,6 +972,25 @@ def replay(ctx, witness):
     sql = Sql(g)
     if 'kinds' in witness or 'fields' in witness:
         run_kinds(ctx, g, dsl)
+        return
+    if 'cross' in witness:
+        import base64
+        import pickle
+
+        spec = witness['cross']
+        cross = Cross(1)
+        if spec['what'] == 'kind':
+            cross.add(ctx, 'kind', dict(kind_pool(dsl))[spec['name']](), name=spec['name'])
+        else:
+            root = g.norm(spec['root'])
+            obj = g.build(root) if spec['what'] == 'schema' or spec.get('node') is None else build_sub(g, root, g.norm(spec['node']), raw=spec['raw'])
+            if spec['what'] == 'schema':
+                obj = obj.schema
+            elif root[0] in ('query', 'set') and g.signature(root) == g.signature(g.norm(spec['node'])):
+                sql.fresh(obj)
+            cross.add(ctx, spec['what'], obj, **{k: v for k, v in spec.items() if k not in ('id', 'what')})
+        del base64, pickle
+        run_cross(ctx, g, dsl, cross)
         return
     ax = g.norm(witness['ast'])
     if witness.get('directed'):
